@@ -55,9 +55,9 @@ def shards(tier, seed):
                  "n": 100} for i in range(32)]
 
 
-def gen_ud(rng, acc):
+def gen_ud(rng, acc, genuine=False):
     """as the operator writes it: plain hex or with the 0x prefix the tools also take"""
-    hx = gen_ud_hex(rng, acc)
+    hx = gen_ud_hex(rng, acc, genuine)
     k = rng.random()
     if k < 0.15:
         # leading zero nibbles (a small number, an all-zero value)
@@ -76,11 +76,22 @@ class UD(str):
         return str(self)[2:] if self.startswith("0x") else str(self)
 
 
-def gen_ud_hex(rng, acc):
+def gen_ud_hex(rng, acc, genuine=False):
     """user-defined value; a third of them begin with bytes that read as text right
     after the message header (ASCII digits, dots, colons), which is where a header
     parser that is too greedy goes wrong"""
     r = rng.random()
+    if rng.random() < (0.4 if genuine else 0.1):
+        # a readable tag chosen by the operator, which may well spell one of the message
+        # headers ("HSM:SIGNER:audit-2026...")
+        tag = rng.choice([b"HSM:SIGNER:", b"HSM:UI:", b"POWHSM:5.4::", b"HSM:SIGNER:5.4",
+                          b"HSM:UI:5.4", b"POWHSM:"])
+        pos = rng.choice([0, 0, 1, 32 - len(tag)])
+        body = bytearray(rng.choice(b"abcdefghijklmnopqrstuvwxyz-/0123456789.")
+                         for _ in range(32))
+        body[pos:pos + len(tag)] = tag
+        acc.count("ud_values_spelling_a_header")
+        return bytes(body[:32]).hex()
     if r < 0.1:
         # ends like a status word
         return (rng.randbytes(30) + rng.choice([b"\x90\x00", b"\x6a\x87"])).hex()
@@ -174,7 +185,7 @@ def ledger_run(acc, cseed, alter, tmpdir):
     dev = gd.dev
     pin = "Abcd1234"
     via_cli = rng.random() < 0.5
-    ud = gen_ud(rng, acc)
+    ud = gen_ud(rng, acc, alter is None)
     setup = os.path.join(tmpdir, "setup.json")
     final = os.path.join(tmpdir, "att.json")
     pkout = os.path.join(tmpdir, "pk.txt")
@@ -342,7 +353,7 @@ def sgx_run(acc, cseed, alter, tmpdir):
     dev = gd.dev
     pin = dev.pin.decode()
     via_cli = rng.random() < 0.5
-    ud = gen_ud(rng, acc)
+    ud = gen_ud(rng, acc, alter is None)
     final = os.path.join(tmpdir, "sgxatt.json")
     pkout = os.path.join(tmpdir, "sgxpk.txt")
     pkjson = os.path.join(tmpdir, "sgxpk.json")
